@@ -624,7 +624,7 @@ class Process(StateMachine, persistence.Savable, metaclass=ProcessStateMachineMe
         """
         super().save_instance_state(out_state, save_context)
 
-        out_state['_state'] = self._state.save()
+        out_state['_state'] = self._state.save(save_context)
 
         # Inputs/outputs
         if self.raw_inputs is not None:
